@@ -304,7 +304,7 @@ def _clidir_case(case):
         r = rng.random()
         if r < .7:
             # one byte of the headers (times, creator, counts, ids, severity, flags ...) or of what follows them
-            off = rng.randrange(8, 72) if rng.random() < .8 else rng.randrange(72, len(b))
+            off = rng.randrange(8, 72) if rng.random() < .8 or len(b) <= 72 else rng.randrange(72, len(b))
             if off in range(44, 48) and rng.random() < .7:
                 off = rng.randrange(16, 24)                       # mostly keep the entry id: copies of ONE log
             b[off] = rng.choice([0x00, 0xFF, b[off] ^ 0x80, b[off] ^ 0x10, rng.randrange(256)])
